@@ -193,6 +193,16 @@ func genDLHistory(r *kernel.Rand, maxOps int) map[string]interface{} {
 		op := map[string]interface{}{"op": "send", "sht": r.Pick(0, 1, 2, 2, 2, 2), "msg": genMsg(r, dlKinds), "via": []string{"direct", "direct", "ngap"}[r.Intn(3)]}
 		if r.Chance(1, 25) {
 			op["sht"] = r.Pick(3, 4)
+			if r.Chance(1, 3) {
+				// the first message of the new context is lost; the AMF retransmits it (T3560) with its
+				// next sequence number, still marked as taking a new context into use
+				lost := map[string]interface{}{"op": "send", "sht": op["sht"], "msg": genMsg(r, dlKinds), "via": "direct", "drop": true, "force_drop": true}
+				ops = append(ops, lost)
+				for k := 0; k < r.Intn(3); k++ {
+					ops = append(ops, map[string]interface{}{"op": "send", "sht": op["sht"], "msg": genMsg(r, dlKinds), "via": "direct", "drop": true, "force_drop": true, "retx": true})
+				}
+				op["retx"] = true
+			}
 		}
 		if r.Chance(1, 4) && dropRun < 200 {
 			op["drop"] = true
